@@ -53,7 +53,17 @@ func (eval Evaluator[T]) Evaluate(input interface{}, p interface{}, targetScale 
 		return nil, fmt.Errorf("cannot evaluatePolyVector: invalid input, must be either *rlwe.Ciphertext or *PowerBasis")
 	}
 
-	if level, depth := powerbasis.Value[1].Level(), levelsConsumedPerRescaling*polyVec.Value[0].Depth(); level < depth {
+	if polyVec.Value[0].Degree() < 1 {
+		return nil, fmt.Errorf("cannot evaluate poly: the degree of the polynomial must be at least 1")
+	}
+
+	// The evaluation consumes ceil(log2(degree+1)) rescalings (none if the simulated evaluator consumes no level).
+	var depth int
+	if SimEval.PolynomialDepth(2) > 0 {
+		depth = SimEval.PolynomialDepth(polyVec.Value[0].Degree()) + levelsConsumedPerRescaling
+	}
+
+	if level := powerbasis.Value[1].Level(); level < depth {
 		return nil, fmt.Errorf("%d levels < %d log(d) -> cannot evaluate poly", level, depth)
 	}
 
